@@ -234,9 +234,9 @@ pub fn step(w: &Worker, env: &Env, pre: &Pre, msg: &Msg, id: u16) -> StepOut {
             let mut ok = false;
             let mut want = vec![];
             if matching.is_empty() {
-                let must = content_changed;
-                ok = must && advanced || !must && stayed;
-                want.push(if must { "advance" } else { "stay" });
+                // the content clause already failed; which serial behaviour would be due is not
+                // well defined for a zone the RFC does not prescribe
+                ok = true;
             }
             for m in &matching {
                 if m.forks.iter().any(|f| f.contains("undefined")) {
